@@ -94,9 +94,13 @@ def _operator(cfg, B):
         for i in range(n):
             s = s + vol[i] * R[k][i]
         tot.append(s + (F[k][n] - F[k][0]))
+    # proof: with the face fluxes CUT to variables (whatever the flux function returns) the sum telescopes - a lemma, whose models
+    # (values of the cut variables) are not inputs; the statement on the real terms is searched for violations with replayable inputs
     totc = cm.cut(B, tot, [F[k] for k in range(neq)])
     for k in range(neq):
-        B.ob('telescoping:' + names[k], 'eq', totc[k], B.const(0))
+        if B.symbolic:
+            B.ob('telescoping-with-the-fluxes-cut:' + names[k], 'eq', totc[k], B.const(0), replayable=False, meta={'lemma': True})
+        B.ob('telescoping:' + names[k], 'eq', tot[k], B.const(0), meta={'search_only': 'telescoping-with-the-fluxes-cut', 'relative': True})
     if cfg['bc'] == 'per':
         for k in range(neq):
             B.ob('periodic-end-faces-same-flux:' + names[k], 'eq', F[k][n], F[k][0])
@@ -136,8 +140,10 @@ def _operator2d(cfg, B):
             out = out - Fk[f] * dx
         tot.append(s + out)
     totc = cm.cut(B, tot, [F[0], F[1], F[2]])
-    for (nm, _, _), t in zip(comps, totc):
-        B.ob('telescoping:' + nm, 'eq', t, B.const(0))
+    for (nm, _, _), t, tu in zip(comps, totc, tot):
+        if B.symbolic:
+            B.ob('telescoping-with-the-fluxes-cut:' + nm, 'eq', t, B.const(0), replayable=False, meta={'lemma': True})
+        B.ob('telescoping:' + nm, 'eq', tu, B.const(0), meta={'search_only': 'telescoping-with-the-fluxes-cut', 'relative': True})
     if bc == 'per':
         for nm, Rk, Fk in comps:
             for a, b in zip(left, right):
